@@ -43,6 +43,13 @@ func main() {
 	manifest := flag.Bool("manifest", false, "print MANIFEST.json for the registered properties and exit")
 	dumpfn := flag.String("dumpfn", "", "debug: pkg:func to dump SSA of")
 	flag.Parse()
+	if *dumpfn == "LIST" {
+		w := loadWorld(*repo)
+		for _, f := range w.RepoFuncs() {
+			fmt.Println(w.fname(f))
+		}
+		return
+	}
 	if *dumpfn != "" {
 		w := loadWorld(*repo)
 		parts := strings.SplitN(*dumpfn, ":", 2)
